@@ -56,7 +56,7 @@ class C20(Prop):
                          dispose_after=rng.choice([None, None, None, rng.randint(0, max(0, count))]), channel=rng.random() < 0.3,
                          dispose_now=rng.random() < 0.12)
             elif k == 'cresp':
-                c.update(data=rng.choice(['', 'aa', 'bbcc']), error=rng.random() < 0.2)
+                c.update(data=rng.choice(['', 'aa', 'bbcc']), md=rng.choice(['', '', 'cd']), error=rng.random() < 0.2)
             elif k == 'coneway':
                 c.update(op=rng.choice(['fnf', 'mp']), subs=rng.choice([0, 1, 1, 2]))
             elif k == 'hstream':
@@ -179,7 +179,7 @@ class C20(Prop):
         t, core, rxc = await self._client(loop, case)
         n0 = len(t.sent)
         events = []
-        rxc.request_response(Payload(b'q')).subscribe(on_next=lambda v: events.append(['n', (v.data or b'').hex()]), on_error=lambda e: events.append(['e']),
+        rxc.request_response(Payload(b'q')).subscribe(on_next=lambda v: events.append(['n', (v.data or b'').hex()] + ([(v.metadata or b'').hex()] if case.get('md') else [])), on_error=lambda e: events.append(['e']),
                                                      on_completed=lambda: events.append(['c']))
         await loop.settle()
         sid = [e[2].stream_id for e in t.sent[n0:] if isinstance(e[2], F.RequestResponseFrame)][0]
@@ -188,6 +188,9 @@ class C20(Prop):
         else:
             fr = F.PayloadFrame()
             fr.stream_id, fr.data, fr.flags_complete = sid, bytes.fromhex(case['data']), True
+            if case.get('md'):
+                fr.metadata = bytes.fromhex(case['md'])      # a response may consist of metadata alone: it is an element, as in the core API
+            fr.flags_next = bool(case['data'] or case.get('md'))
             t.deliver(fr.serialize())
         await loop.settle()
         await core.close()
@@ -559,9 +562,10 @@ class C20(Prop):
                 if obs['events'] != [['e']]:
                     add('response-error-altered', str(obs['events']))
             else:
-                want = ([['n', case['data']]] if case['data'] else []) + [['c']]
+                md = case.get('md')
+                want = ([['n', case['data']] + ([md] if md else [])] if (case['data'] or md) else []) + [['c']]
                 if obs['events'] != want:
-                    add('response-altered', 'server answered %r, observer saw %s' % (case['data'], obs['events']))
+                    add('response-altered', 'server answered data %r metadata %r, observer saw %s' % (case['data'], md, obs['events']))
         elif k == 'coneway':
             want = 'REQUEST_FNF' if case['op'] == 'fnf' else 'METADATA_PUSH'
             if want not in obs['wire']:
